@@ -261,3 +261,6 @@ mod tests {
         is_sync::<Filter<ExecutionContext<'_>>>();
     }
 }
+
+#[cfg(kani)]
+pub(crate) mod verif_kani;
